@@ -558,6 +558,9 @@ func boundOfArg(x ast.BaseTerm, varRanges map[ast.Variable]ast.BaseTerm, nameTri
 		case symbols.Map.Symbol:
 			var keyTpes []ast.BaseTerm
 			var valTpes []ast.BaseTerm
+			if len(z.Args)%2 != 0 {
+				return symbols.EmptyType // Malformed, evaluation reports the error.
+			}
 			for i := 0; i < len(z.Args); i++ {
 				keyTpes = append(keyTpes, boundOfArg(z.Args[i], varRanges, nameTrie))
 				i++
@@ -567,6 +570,9 @@ func boundOfArg(x ast.BaseTerm, varRanges map[ast.Variable]ast.BaseTerm, nameTri
 
 		case symbols.Struct.Symbol:
 			var fields []ast.BaseTerm
+			if len(z.Args)%2 != 0 {
+				return symbols.EmptyType // Malformed, evaluation reports the error.
+			}
 			for i := 0; i < len(z.Args); i++ {
 				fields = append(fields, z.Args[i])
 				i++
@@ -576,6 +582,9 @@ func boundOfArg(x ast.BaseTerm, varRanges map[ast.Variable]ast.BaseTerm, nameTri
 			return symbols.NewStructType(fields...)
 
 		case symbols.StructGet.Symbol:
+			if len(z.Args) != 2 {
+				return symbols.EmptyType // Malformed, evaluation reports the error.
+			}
 			structTpe := boundOfArg(z.Args[0], varRanges, nameTrie)
 			if !symbols.IsStructTypeExpression(structTpe) {
 				return symbols.EmptyType
